@@ -415,7 +415,7 @@ def example_values():
 
 
 def example_types():
-    out = [t for t in grid_types() if t != 'VoidAlias']      # (a struct member of an alias of Void is outside envWF)
+    out = [t for t in grid_types() if t not in FIELD_TYPE_REFUSED]      # (types a struct field cannot have)
     out += ['List(Int32(max_value=3))', 'List(Int32, min_items=1, max_items=2)', 'List(Int32)?', 'List(Int32?)',
             'List(String(pattern="a"))', 'List(Bytes)', 'List(List(Int32, max_items=1))', 'List(Float64)', 'List(Boolean)',
             'Map(String, Int32(max_value=3))', 'Map(String(pattern="a"), Int32)', 'Map(String(min_length=1), Int32)',
@@ -554,19 +554,53 @@ def _model_check_outcome(rep):
 
 _GRID = None
 
+# grid types the compiler is expected to refuse as the type of a struct field (whatever the default / example):
+# an alias of Void is Void (repair 981a08f)
+FIELD_TYPE_REFUSED = {'VoidAlias'}
 
-def grid_compiler():
+
+def grid_compiler(ck=None):
+    """the compiler for `prelude + one case`; None (and a disagreement of suite decl.ircheck.grid_prelude) when the
+    compiler under test refuses the fixed prelude the grids take for granted"""
     global _GRID
     if _GRID is None:
-        _GRID = GridCompiler([('ns.stone', PRELUDE), ('other_ns.stone', OTHER)])
+        try:
+            gc = GridCompiler([('ns.stone', PRELUDE), ('other_ns.stone', OTHER)])
+            out = gc.compile('')
+        except ValueError as e:
+            out = ('invalid', str(e)[:200])
+        if out[0] != 'ok':
+            if ck is not None:
+                ck.disagree('decl.ircheck.grid_prelude', {'specs': _grid_spec('')}, list(out[:2]), ['ok'])
+            return None
+        _GRID = gc
+    if ck is not None:
+        ck.agree('decl.ircheck.grid_prelude')
     return _GRID
+
+
+def grid_type_irs(ck, gc, types):
+    """IR form of every grid type (read off the members of one closed union: a member may have any type, also one
+    a struct field may not have) and the unions of the prelude; None + disagreement when that does not compile"""
+    out = gc.compile('union_closed GridTypes\n' + ''.join('    m%d %s\n' % (i, t) for i, t in enumerate(types)))
+    if out[0] != 'ok':
+        ck.disagree('decl.ircheck.grid_prelude', {'what': 'one union with a member of every grid type', 'types': types},
+                    list(out[:2]), ['ok'])
+        return None, None
+    ck.agree('decl.ircheck.grid_prelude')
+    members = out[1].namespaces['ns'].data_type_by_name['GridTypes'].fields
+    irts = {t: irdump.ir_ty(members[i].data_type) for i, t in enumerate(types)}
+    unions = [u for u in capi_of(out[1])['unions'] if u['cls'] != 'ns.GridTypes']
+    return irts, unions
 
 
 def build_batches(ck, cases, render, risky=lambda c: False, size=80):
     """cases accepted by the compiler -> loaded modules. `render(i, case)` gives the definition text.
     Yields (case, built | None, definition name, failure). Cases for which module generation is expected to fail
     are built alone; a batch that fails all the same is split."""
-    gc = grid_compiler()
+    gc = grid_compiler(ck)
+    if gc is None:
+        return
 
     def attempt(group):
         body = ''.join(render(i, c) for i, c in group)
@@ -674,17 +708,29 @@ def _risky_default(c):
 def suite_default_grid(ck):
     types, lits = grid_types(), grid_literals()
     ts = values.TsRegistry()
-    gc = grid_compiler()
+    gc = grid_compiler(ck)
+    if gc is None:
+        return
     # the IR form of every grid type and the unions of the prelude (compiled once, without defaults)
-    out = gc.compile(''.join('struct T%d\n    f %s\n' % (i, t) for i, t in enumerate(types)))
-    if out[0] != 'ok':
-        raise RuntimeError('grid prelude does not compile: %r' % (out,))
-    api0 = out[1]
-    irts = {t: irdump.ir_ty(api0.namespaces['ns'].data_type_by_name['T%d' % i].fields[0].data_type) for i, t in enumerate(types)}
-    unions = capi_of(api0)['unions']
+    irts, unions = grid_type_irs(ck, gc, types)
+    if irts is None:
+        return
+    # which grid types a struct field may have at all
+    for t in types:
+        out = gc.compile('struct T\n    f %s\n' % t)
+        expected = 'invalid' if t in FIELD_TYPE_REFUSED else 'ok'
+        if out[0] == expected:
+            ck.agree('decl.ircheck.grid_types')
+        else:
+            ck.disagree('decl.ircheck.grid_types', {'type': t, 'spec': 'struct T\n    f %s\n' % t}, list(out[:1]) if out[0] == 'ok' else list(out[:2]), [expected])
     parsed = {}
-    for l in lits:
-        ast = parse_only('namespace ns\nstruct S\n    f Int32 = %s\n' % l)
+    for l in list(lits):
+        try:
+            ast = parse_only('namespace ns\nstruct S\n    f Int32 = %s\n' % l)
+        except ValueError as e:
+            ck.disagree('decl.ircheck.grid_prelude', {'what': 'grid literal does not parse', 'literal': l}, [str(e)[:200]], ['parses'])
+            lits.remove(l)
+            continue
         node = [n for n in ast if getattr(n, 'name', None) == 'S'][0]
         parsed[l] = lit_tagged(node.fields[0].default)
     reqs, meta = [], []
@@ -794,7 +840,12 @@ def build_generated(ck, n_by_profile):
     out = []
     for group in SEED_SPECS:
         specs = [(p, open(os.path.join(core.VERIF, 'harness', 'specs', p), encoding='utf-8').read()) for p in group]
-        out.append(('seed', specs, pygen.build_python(specs)))
+        try:
+            out.append(('seed', specs, pygen.build_python(specs)))
+            ck.agree('decl.ircheck.seed_specs')
+        except Exception as e:  # noqa: BLE001 - a hand-written seed the toolchain under test no longer takes
+            ck.disagree('decl.ircheck.seed_specs', {'files': group, 'specs': specs},
+                        ['%s: %s' % (type(e).__name__, (getattr(e, 'traceback', '') or str(e))[-300:])], ['builds'])
     for prof, n in n_by_profile:
         for _ in range(n):
             model = specgen.gen_model(ck.rng, PROFILES[prof])
@@ -1357,7 +1408,9 @@ def _example_text(kind, t, v, name='S'):
 def suite_example_grid(ck):
     types, vals = example_types(), example_values()
     ts = values.TsRegistry()
-    gc = grid_compiler()
+    gc = grid_compiler(ck)
+    if gc is None:
+        return
     parsed = {}
     for v in vals:
         try:
@@ -1370,12 +1423,15 @@ def suite_example_grid(ck):
     reqs, meta, accepted = [], [], []
     for kind in ('struct', 'union'):
         for t in types:
-            if kind == 'union' and (t == 'VoidAlias' or t.startswith('Float32(') or t.startswith('UInt32(') or t.startswith('Int64(')):
+            if kind == 'union' and (t.startswith('Float32(') or t.startswith('UInt32(') or t.startswith('Int64(')):
                 continue                                  # the union half repeats a representative part of the types
-            base = gc.compile(_example_text(kind, t, 'null').split('    example')[0])
+            base_text = _example_text(kind, t, 'null').split('    example')[0]
+            base = gc.compile(base_text)
             if base[0] != 'ok':
-                ck.stat('example.grid.type_refused')
+                # every type of this grid is one the compiler accepts for a struct field and for a union member
+                ck.disagree('decl.ircheck.grid_types', {'kind': kind, 'type': t, 'spec': base_text}, list(base[:2]), ['ok'])
                 continue
+            ck.agree('decl.ircheck.grid_types')
             capi = capi_of(base[1])
             pats, fmts = set(), set()
             capi_params(capi, pats, fmts)
@@ -1514,8 +1570,11 @@ def suite_flat_examples(ck, n):
         real_check = [out[0]] if out[0] != 'crash' else ['crash', out[1]]
         base = compile_outcome([('ns.stone', 'namespace ns\n\n' + body.split('    example default')[0])])
         if base[0] != 'ok':
-            ck.stat('example.flat.type_refused')
+            # the struct chain alone (valid types, defaults taken from the accepted values) always compiles
+            ck.disagree('decl.ircheck.flat_base', {'specs': [['ns.stone', 'namespace ns\n\n' + body.split('    example default')[0]]]},
+                        list(base[:2]), ['ok'])
             continue
+        ck.agree('decl.ircheck.flat_base')
         capi = capi_of(base[1])
         ast = parse_only('namespace ns\n\n' + body)
         node = [n_ for n_ in ast if getattr(n_, 'name', None) == leaf][0]
